@@ -10,22 +10,23 @@ Mention(k) == [c |-> "plain", txt |-> CoreTxt(Z(k))]            \* a ZID written
 Mentions == { <<0, 0>>, <<1, 2>>, <<1, 3>>, <<3, 1>>, <<2, 3>> }   \* <<who, whom>>: note `who` mentions the ZID of `whom`
 It(kind, prio, ws, cont) == [k |-> "item", kind |-> kind, prio |-> prio, gap |-> 1, w |-> ws, cont |-> cont]
 M(who, m) == IF m[1] = who THEN << Plain("see"), Mention(m[2]), Plain("here") >> ELSE << >>
-N1(m) == It("-", None, << Z(1), Plain("first"), Tag("projects", "tp_x"), Plain("note") >> \o M(1, m), << >>)
-N2(m, withCont) == It("o", "P2", << Z(2), Plain("second"), Tag("contexts", "own") >> \o M(2, m),
+St(st) == IF st THEN << SDate("24", "06", "12") >> ELSE << >>       \* a modify date in front of the ZID
+N1(m, st) == It("-", None, St(st) \o << Z(1), Plain("first"), Tag("projects", "tp_x"), Plain("note") >> \o M(1, m), << >>)
+N2(m, withCont, st) == It("o", "P2", St(st) \o << Z(2), Plain("second"), Tag("contexts", "own") >> \o M(2, m),
                       IF withCont THEN << [k |-> "bullet", ind |-> 2, mark |-> "*", w |-> << Plain("detail"), Plain("line") >>] >> ELSE << >>)
-N3(m, bare) == It("-", None, << Z(3) >> \o (IF bare THEN << >> ELSE << Plain("third") >>) \o M(3, m), << >>)
+N3(m, bare, st) == It("-", None, St(st /\ ~bare) \o << Z(3) >> \o (IF bare THEN << >> ELSE << Plain("third") >>) \o M(3, m), << >>)
 Sec == [k |-> "sec", lvl |-> 1, w |-> << Plain("Sec"), Tag("areas", "sa"), Prop("sk", "sv") >>]
-Src(m, withSec, withCont, bare) ==
+Src(m, withSec, withCont, bare, st) ==
   [title |-> << Plain("Src"), Tag("projects", "tp"), Prop("tk", "tv"), IProp("tm", "two words") >>, head |-> << >>,
-   body |-> << N1(m) >> \o (IF withSec THEN << [k |-> "blank"], Sec, [k |-> "blank"] >> ELSE << >>) \o << N2(m, withCont), N3(m, bare) >>]
+   body |-> << N1(m, st) >> \o (IF withSec THEN << [k |-> "blank"], Sec, [k |-> "blank"] >> ELSE << >>) \o << N2(m, withCont, st), N3(m, bare, st) >>]
 DestForms == { "missing-tmpl", "missing-notmpl", "header-only", "header-blank", "items", "items-blank-end", "two-blocks",
                "sec-last-nl", "sec-last-nonl", "sec-with-items", "same-page" }
 ItemIdx(p, which) == CHOOSE i \in DOMAIN p.body : IsItem(p.body[i])
                         /\ Cardinality({ j \in 1..i : IsItem(p.body[j]) }) = which
-Cases == { LET p == Src(m, ws, wc, bare)  i == ItemIdx(p, which) IN
+Cases == { LET p == Src(m, ws, wc, bare, st)  i == ItemIdx(p, which) IN
            [src |-> p, k |-> i, zid |-> CoreTxt(Z(which)), a |-> LineNo(p, i), b |-> LineNo(p, i) + Height(p.body[i]) - 1,
             marker |-> mk, dest |-> d]
-           : m \in Mentions, ws \in BOOLEAN, wc \in BOOLEAN, bare \in BOOLEAN, which \in 1..3, mk \in {"", "x", "~"}, d \in DestForms }
+           : m \in Mentions, ws \in BOOLEAN, wc \in BOOLEAN, bare \in BOOLEAN, st \in BOOLEAN, which \in 1..3, mk \in {"", "x", "~"}, d \in DestForms }
 Init == c \in Cases
 Next == UNCHANGED c
 Spec == Init /\ [][Next]_c
